@@ -43,7 +43,11 @@ class Server(object):
         except Exception as e:
             logger.exception('%s error', name)
             is_ok = False
-            result = e.__class__.__name__, str(e)
+            try:
+                message = str(e)
+            except Exception:
+                message = '<unprintable %s object>' % e.__class__.__name__
+            result = e.__class__.__name__, message
 
         # logger.error('PROCESS %r %r %r: %r', name, args, kwargs, result)
         return result, is_ok
